@@ -287,10 +287,22 @@ def coq_check_cases(name, header, exprs, shard=250, timeout=400):
     Evaluated by vm_compute in parallel shards.  -> (failing_indices, error_logs)"""
     from concurrent.futures import ThreadPoolExecutor
     shards = [(i, exprs[i:i + shard]) for i in range(0, len(exprs), shard)]
-    def one(sh):
+    def one(sh, tmo=None, depth=0):
         base, es = sh
+        tmo = tmo or timeout
         body = header + '\n' + IDX_FALSE + 'Eval vm_compute in idx_false [%s].\n' % ';\n'.join(es)
-        rc, out = coq_eval('%s_%d' % (name, base), body, timeout=timeout)
+        rc, out = coq_eval('%s_%d' % (name, base), body, timeout=tmo)
+        if rc == 124 and depth < 3:
+            # a shard that ran out of time (a loaded machine, or unusually heavy cases) is not evidence of anything:
+            # evaluate it again in halves with a doubled time limit before giving up
+            if len(es) > 1:
+                h = len(es) // 2
+                b1, f1, e1 = one((base, es[:h]), tmo * 2, depth + 1)
+                if e1 is not None: return base, None, e1
+                b2, f2, e2 = one((base + h, es[h:]), tmo * 2, depth + 1)
+                if e2 is not None: return base, None, e2
+                return base, f1 + f2, None
+            return one(sh, tmo * 4, depth + 1)
         ans = coq_flat(out)
         if rc != 0 or len(ans) != 1: return base, None, out[-1500:]
         if re.match(r'= (\[\]|nil)\s*:', ans[0]): return base, [], None
